@@ -162,6 +162,11 @@ def main():
     counts, miss = gen_c18_sites.generate(REPO)
     vals.update(counts)      # PEER_ID_SITES
     missing += list(miss)
+    # C04: error-kind table and mapping flags -> coq/gen/C04Tables.v (sibling script)
+    import gen_c04_tables
+    counts, miss = gen_c04_tables.generate(REPO)
+    vals.update(counts)      # SUBSTREAM_ERRORKINDS_MASK, EK_*, ...
+    missing += list(miss)
     str_names = []
     for name, path, rx in STR_CONSTS:
         try:
